@@ -877,8 +877,21 @@ def _compare_step(sres, fres):
     for k, v in sres['answers'].items():
         fv = fres['answers'].get(k, '<missing>')
         if v != fv:
+            if _both_crash_stack_dependent(v, fv):
+                # neither side has an answer: both queries die, one of them by exhausting the
+                # interpreter stack (the typeshed-less K1 cycle, C01's finding).  Where a stack
+                # overflow surfaces - and which half-filled memo entries it leaves behind for the
+                # next frame that catches it - depends on the depth the query started from, not on
+                # the text; the crash itself is reported by C01 by call site.  Counted, not compared.
+                sres.setdefault('_crash_pairs', []).append(k)
+                continue
             diffs.append((k, v, fv))
     return diffs
+
+
+def _both_crash_stack_dependent(a, b):
+    return (isinstance(a, str) and isinstance(b, str) and a.startswith('EXC:') and b.startswith('EXC:')
+            and (a.startswith('EXC:RecursionError') or b.startswith('EXC:RecursionError')))
 
 
 def shrink_session(ctx, sess, root, step_i, key, fresh_val, budget=40):
@@ -1005,7 +1018,7 @@ def stream_history(ctx):
     fres = dict(zip(fkeys, results[len(sessions):]))
 
     kinds, modes = {}, {}
-    n_steps = n_excl = n_q = n_exc = n_sig_hits = 0
+    n_steps = n_excl = n_q = n_exc = n_sig_hits = n_crash_pairs = 0
     failing = []
     to_verify, unknown = [], {}
 
@@ -1047,7 +1060,9 @@ def stream_history(ctx):
             nontriv = i > 0 and any(v not in ([], None) and not (isinstance(v, str) and v.startswith('EXC:'))
                                     for v in sr['answers'].values())
             ctx.count('history', (s['mode'], st['text'], tuple(map(tuple, st['positions'])), i), nontrivial=nontriv, n=nq)
-            for (key, hv, fv) in _compare_step(sr, fr):
+            cmp_ = _compare_step(sr, fr)
+            n_crash_pairs += len(sr.get('_crash_pairs', ()))
+            for (key, hv, fv) in cmp_:
                 cls = classify_known(s, r[1], i, key, hv, fv)
                 if cls and cls[0] == 'verify':
                     to_verify.append((s, i, key, hv, fv, cls[1]))
@@ -1078,6 +1093,7 @@ def stream_history(ctx):
     ctx.stat('history_steps_excluded_parso_proviso', n_excl)
     ctx.stat('history_queries', n_q)
     ctx.stat('history_queries_raising_same_exception_in_both', n_exc)
+    ctx.stat('history_queries_crashing_in_both_with_a_stack_overflow_on_one_side_not_compared', n_crash_pairs)
     ctx.stat('history_signature_cache_hits_across_scripts', n_sig_hits)
     ctx.stat('history_distinct_fresh_evaluations', len(fkeys))
     for s, (i, diffs) in failing[:6]:
